@@ -62,11 +62,12 @@ def TokAt (input : List Nat) (pos : Pos) (tk : Tok) : Prop :=
   tk.val.1 = pos.pos ∧ tk.val.1 + tk.val.2 ≤ input.length ∧
     tk.span = ⟨pos, posOf input (tk.val.1 + tk.val.2)⟩
 
-theorem tokenIter_tokAt (env : Env) (hr : RecogOk env) (pos : Pos) (hp : PosOk env.input pos) :
-    ∀ (exp : List (Nat × Bool)) (tk : Tok), tk ∈ tokenIter env pos exp → TokAt env.input pos tk
-  | [], tk, h => by simp [tokenIter] at h
-  | (k, fin) :: rest, tk, h => by
-    unfold tokenIter at h
+theorem tokenIterAux_tokAt (env : Env) (hr : RecogOk env) (pos : Pos) (hp : PosOk env.input pos) :
+    ∀ (exp : List (Nat × Bool)) (matched : Bool) (tk : Tok),
+      tk ∈ tokenIterAux env pos matched exp → TokAt env.input pos tk
+  | [], m, tk, h => by simp [tokenIterAux] at h
+  | (k, fin) :: rest, m, tk, h => by
+    unfold tokenIterAux at h
     split at h
     · rename_i l hl
       have hle := hr k pos.pos l hl
@@ -77,8 +78,14 @@ theorem tokenIter_tokAt (env : Env) (hr : RecogOk env) (pos : Pos) (hp : PosOk e
         rw [(posOk_advance hp hle).1]
       · split at h
         · simp at h
-        · exact tokenIter_tokAt env hr pos hp rest tk h
-    · exact tokenIter_tokAt env hr pos hp rest tk h
+        · exact tokenIterAux_tokAt env hr pos hp rest true tk h
+    · split at h
+      · simp at h
+      · exact tokenIterAux_tokAt env hr pos hp rest m tk h
+
+theorem tokenIter_tokAt (env : Env) (hr : RecogOk env) (pos : Pos) (hp : PosOk env.input pos)
+    (exp : List (Nat × Bool)) (tk : Tok) (h : tk ∈ tokenIter env pos exp) : TokAt env.input pos tk :=
+  tokenIterAux_tokAt env hr pos hp exp false tk h
 
 theorem pickToken_mem {longest : Bool} {toks : List Tok} {tk : Tok}
     (h : pickToken longest toks = some tk) : tk ∈ toks := by
